@@ -41,6 +41,15 @@ let c19host line =
   Printf.sprintf "%s|%s|%s|%d" (hex_of_bytes (hostname s)) (port_s (port s))
     (hex_of_bytes (ci_hostname ci)) (int_of_z (ci_get_port ci))
 
+(* ------------------------------------------------------------------ c19uri: "<scheme hex or ->;<host hex or ->;<port or ->" *)
+let c19uri line =
+  match String.split_on_char ';' line with
+  | [sc; h; p] ->
+    let opt f x = if x = "-" then None else Some (f x) in
+    let scheme = opt bytes_of_hex sc and host = opt bytes_of_hex h and port = opt (fun x -> z_of_int (int_of_string x)) p in
+    Printf.sprintf "%s|%s|%d" (hex_of_bytes (uri_hostname host)) (port_s (uri_port port scheme)) (int_of_z (uri_ci_port port scheme))
+  | _ -> failwith "c19uri: scheme;host;port"
+
 (* ------------------------------------------------------------------ c19info *)
 let taddr i = (z_of_int (10 + i), z_of_int (1000 + i))
 let tidx (ip, p) =
@@ -316,7 +325,7 @@ let c18coq line =
 
 let () =
   let f = match Sys.argv.(1) with
-    | "c19host" -> c19host | "c19info" -> c19info | "c19conn" -> c19conn | "c19tls" -> c19tls
+    | "c19host" -> c19host | "c19uri" -> c19uri | "c19info" -> c19info | "c19conn" -> c19conn | "c19tls" -> c19tls
     | "c18" -> c18 | "c18coq" -> c18coq
     | m -> failwith ("unknown mode " ^ m) in
   try while true do
